@@ -75,6 +75,11 @@ def run(tier, seed):
                     p['sections'] = secs
                     apel.fix_real_plugins(p)
                     pels.append(p)
+                # designed: one log with a parser that answers in non-ASCII text, one that raises, one that returns nothing, and a well-behaved one after them
+                p = apel.gen_pel(rng, max_sections=0)
+                p['ph']['creator'] = ord('x')
+                p['sections'] = [{'kind': 'ud', 'hdr': dict(apel.gen_hdr(rng), comp=c_), 'payload': b'payload'} for c_ in (0x7E7E, 0x2222, 0x3333, 0x1111)]
+                pels.insert(0, p)
                 replies = lean_batch([env.tokens()] + ['pelspec %s %s x' % (apel.tok_cfg(), apel.tok_pel(p)) for p in pels])[1:]
                 for p, r in zip(pels, replies):
                     data = r.bytes()
